@@ -225,6 +225,65 @@ func checkC02(c *Check) {
 				}
 			}
 		}
+		// "find, then act": the scan only looks the session up (it stores
+		// the match into result variables of its function), and the bind,
+		// the flush and the parking follow the call of that finder
+		scope := cb // the function inside which a bind must be followed by the flush
+		var anchors []ssa.Instruction // in cb: where the matching session is taken (bind, or store of the match)
+		finder := false
+		if len(binds) == 0 {
+			fnd := m.Fn // the function running the scan
+			var scopeFn *ssa.Function
+			for _, ep := range t.EPs {
+				if ep.Name() == m.EP {
+					scopeFn = ep
+				}
+			}
+			for _, f := range t.Facts {
+				if f.EP != m.EP || f.Kind != "bind" || f.U == nil || f.U.K != "call" {
+					continue
+				}
+				cl, ok := f.U.V.(*ssa.Call)
+				if !ok || staticCallee(cl.Common()) != fnd || f.U.Idx < 0 {
+					continue
+				}
+				// the result variable of the finder and its stores in the scan callback
+				var cell *ssa.Alloc
+				allInstrs(fnd, func(in ssa.Instruction) {
+					if ret, isRet := in.(*ssa.Return); isRet && f.U.Idx < len(ret.Results) && ret.Block() != fnd.Recover {
+						if ld, isLd := ret.Results[f.U.Idx].(*ssa.UnOp); isLd {
+							if a, isA := ld.X.(*ssa.Alloc); isA {
+								cell = a
+							}
+						}
+					}
+				})
+				if cell == nil {
+					continue
+				}
+				for _, st := range NewResolver(p).cellStores(cell) {
+					if st.Parent() == cb && !isNilConst(st.Val) {
+						anchors = append(anchors, st)
+					}
+				}
+				binds = append(binds, f)
+				finder = true
+			}
+			if finder && scopeFn != nil {
+				scope = scopeFn
+				for _, f := range t.Facts {
+					if f.EP == m.EP && f.Kind == "flush" && f.Within(scope) {
+						flushes = append(flushes, f)
+					}
+				}
+			}
+		} else {
+			for _, b := range binds {
+				if bl := b.LiftTo(cb); bl != nil && (b.Fn == cb || t.unavoidableBelow(b, cb)) {
+					anchors = append(anchors, bl)
+				}
+			}
+		}
 		c.Floor("bind sites in the login scan", 1, len(binds))
 		// flush facts of object u, lifted to function fn
 		isFlushOfIn := func(u *Org, fn *ssa.Function) func(ssa.Instruction) bool {
@@ -242,36 +301,40 @@ func checkC02(c *Check) {
 		}
 		for _, b := range binds {
 			// from the bind to the end of its function, then of each caller up
-			// to the callback: every path flushes the same object's queue
+			// to the scope: every path flushes the same object's queue
 			cur, fn, level := b.Ins, b.Fn, len(b.Frames)
 			var miss ssa.Instruction
 			for {
 				miss = searchAvoiding(fn, cur, isReturn, isFlushOfIn(b.U, fn))
-				if miss == nil || fn == cb || level == 0 {
+				if miss == nil || fn == scope || level == 0 {
 					break
 				}
 				level--
 				cur = b.Frames[level]
 				fn = cur.Parent()
 			}
-			c.Cond(miss == nil, "bind-implies-flush", name+": bind", b.Pos(p), "every path from the bind to the end of the callback flushes the same object's queue (under the same lock)", "after a login is bound the events held for its session may stay in the queue: they are never emitted")
+			c.Cond(miss == nil, "bind-implies-flush", name+": bind", b.Pos(p), "every path from the bind to the end of the delivery flushes the same object's queue (under the same lock)", "after a login is bound the events held for its session may stay in the queue: they are never emitted")
 		}
-		// returns
+		// returns of the scan callback
 		for _, rf := range t.Of("return") {
 			if rf.Fn != cb || rf.EP != m.EP {
 				continue
 			}
 			afterBind := false
-			for _, b := range binds {
-				if bl := b.LiftTo(cb); bl != nil && bl != rf.Ins && dominatesInstr(bl, rf.Ins) && (b.Fn == cb || t.unavoidableBelow(b, cb)) {
+			for _, an := range anchors {
+				if an != rf.Ins && dominatesInstr(an, rf.Ins) {
 					afterBind = true
 				}
 			}
+			what := "the login was bound"
+			if finder {
+				what = "the matching session was taken"
+			}
 			switch rf.Ret {
 			case "false":
-				c.Cond(afterBind, "scan-stops-only-after-bind", name+": return false", rf.Pos(p), "the scan stops only after the login was bound", "the scan of open sessions can stop before the matching session was examined: a late login is parked although its session is open, and the held events are never released")
+				c.Cond(afterBind, "scan-stops-only-after-bind", name+": return false", rf.Pos(p), "the scan stops only after "+what, "the scan of open sessions can stop before the matching session was examined: a late login is parked although its session is open, and the held events are never released")
 			case "true":
-				c.Cond(!afterBind, "scan-stops-after-bind", name+": return true", rf.Pos(p), "continues only while unbound", "the scan continues after a bind: the same login can be bound to a second session")
+				c.Cond(!afterBind, "scan-stops-after-bind", name+": return true", rf.Pos(p), "continues only while unbound", "the scan continues after a match: the same login can be bound to a second session")
 			default:
 				c.Unk("scan-stops-only-after-bind", name+": computed return", rf.Pos(p), "the callback's result is computed; cannot decide when the scan stops")
 			}
@@ -279,8 +342,7 @@ func checkC02(c *Check) {
 		// flag idiom: found := true on the bind path, parking guarded by !found
 		var flag *ssa.Alloc
 		fr := NewResolver(p)
-		for _, b := range binds {
-			bl := b.LiftTo(cb)
+		for _, bl := range anchors {
 			allInstrs(cb, func(in ssa.Instruction) {
 				st, ok := in.(*ssa.Store)
 				if !ok || bl == nil {
@@ -301,21 +363,52 @@ func checkC02(c *Check) {
 				continue
 			}
 			ok := false
+			// the variables that say "a session matched": the boolean flag,
+			// or the variable the matching session itself is stored into
+			matchCells := map[*ssa.Alloc]bool{}
+			for _, an := range anchors {
+				if st, isSt := an.(*ssa.Store); isSt {
+					if a, isA := st.Addr.(*ssa.Alloc); isA {
+						matchCells[a] = true
+					} else if fv, isFV := st.Addr.(*ssa.FreeVar); isFV {
+						if o := fr.Of(fv); o.K == "cell" {
+							matchCells[o.V.(*ssa.Alloc)] = true
+						}
+					}
+				}
+			}
+			viaMatchCell := false
 			for _, g := range s.Guards {
+				fc := flagCellOf(g)
+				if fc == nil {
+					continue
+				}
+				if _, isBin := g.V.(*ssa.BinOp); isBin {
+					// nil test of the matched object: parked only when it is nil
+					isNil := (g.Op == "==") == g.Pos
+					if isNil && matchCells[fc] {
+						ok, viaMatchCell = true, true
+					}
+					continue
+				}
 				if g.Pos {
 					continue
 				}
-				if flag != nil && flagCellOf(g) == flag {
+				if flag != nil && fc == flag {
 					ok = true
 				}
+			}
+			if viaMatchCell {
+				c.OK("park-only-if-unbound", "parking the login in "+s.Fn.Name(), s.Pos(p), "parked only when the finder returned no matching session")
+				continue
 			}
 			// the flag must only be set on the bind path
 			if ok && flag != nil {
 				for _, st := range fr.cellStores(flag) {
 					if k, isC := st.Val.(*ssa.Const); isC && k.Value != nil && k.Value.String() == "true" {
 						dom := false
-						for _, b := range binds {
-							if bl := b.LiftTo(st.Parent()); bl != nil && (dominatesInstr(bl, st) || dominatesInstr(st, bl)) {
+						for _, bl := range anchors {
+							if bl.Parent() == st.Parent() && (dominatesInstr(bl, st) || dominatesInstr(st, bl)) {
 								dom = true
 							}
 						}
@@ -678,6 +771,25 @@ func flagCellOf(g GAtom) *ssa.Alloc {
 		return returnedCell(g.R.P, cl, v.Index)
 	case *ssa.Call:
 		return returnedCell(g.R.P, v, 0)
+	case *ssa.BinOp:
+		// x == nil / x != nil on a result of a finder function
+		var other ssa.Value
+		switch {
+		case isNilConst(v.Y):
+			other = v.X
+		case isNilConst(v.X):
+			other = v.Y
+		default:
+			return nil
+		}
+		switch o := other.(type) {
+		case *ssa.Extract:
+			if cl, ok := o.Tuple.(*ssa.Call); ok {
+				return returnedCell(g.R.P, cl, o.Index)
+			}
+		case *ssa.Call:
+			return returnedCell(g.R.P, o, 0)
+		}
 	}
 	return nil
 }
